@@ -442,3 +442,5 @@ def r01_7(ck, F):
 def run(ck, F):
     for r in (r01_1, r01_2, r01_3, r01_4, r01_5, r01_5b, r01_6, r01_7, r01_8):
         ck.run_rule(r)
+    import c02
+    ck.run_rule(c02.r02_1b)    # no surplus (empty) frame is emitted for a message: every frame of a message carries payload or is the single frame of an empty message
